@@ -412,15 +412,16 @@ def deleteObjectsPlan (e : Env) (b : Bytes) : List Bytes → List Touch → List
   | k :: rest, acc, paths =>
     withPath (getObjectPath e b k) acc fun p => deleteObjectsPlan e b rest (acc ++ [rd p]) (paths ++ [p])
 
-/-- the part loop of `complete_multipart_upload`: the temporary file exists; parts are read and removed one by
-    one; an error drops the writer (temporary file removed); at the end `done()` and the read-back for the ETag -/
-def completePartsPlan (e : Env) (u tmp p : Bytes) : List Int → Int → List Touch → Plan
-  | [], _, acc => .ok (acc ++ [rm tmp, ⟨.create, .dirChain (parentPath p)⟩, cr p, wr p, rd p])
-  | n :: rest, cnt, acc =>
-    if n ≠ cnt + 1 then .fail (acc ++ [rm tmp]) .invalidRequest       -- "invalid part order"
-    else
-      withPath (uploadPartPath e u n) (acc ++ [rm tmp]) fun pp =>
-        completePartsPlan e u tmp p rest (cnt + 1) (acc ++ [rd pp, rm pp])
+/-- the validation loop of `complete_multipart_upload` (0932917: before anything is changed): part numbers `1, 2, 3, …`
+    ("invalid part order" otherwise), every part file is probed; the touches so far and the part paths, or the plan that
+    ended there -/
+def completeCheck (e : Env) (u : Bytes) : List Int → Int → List Touch → List Bytes → Except Plan (List Touch × List Bytes)
+  | [], _, acc, pps => .ok (acc, pps)
+  | n :: rest, cnt, acc, pps =>
+    if n ≠ cnt + 1 then .error (.fail acc .invalidRequest)            -- "invalid part order"
+    else match uploadPartPath e u n with
+      | .error x => .error (.fail acc x)
+      | .ok pp => completeCheck e u rest (cnt + 1) (acc ++ [rd pp]) (pps ++ [pp])
 
 def plan (e : Env) (enc : Bytes → Bytes) : Op → Plan
   | .createBucket b =>
@@ -521,15 +522,21 @@ def plan (e : Env) (enc : Bytes → Bytes) : Op → Plan
       | none => .fail [] .invalidRequest
       | some u =>
         verifyUpload e u [] fun t1 =>
-        withPath (uploadInfoPath e u) t1 fun info =>
-        let t2 := t1 ++ [rm info]
-        withPath (metadataPath e enc b k (some u)) t2 fun um =>
-        let t3 := t2 ++ [rd um]
-        withPath (metadataPath e enc b k none) t3 fun m =>
-        let t4 := t3 ++ [cr m, wr m, rm um]
-        withPath (getObjectPath e b k) t4 fun p =>
-        withPath (tmpPath e counter) t4 fun tmp =>
-        completePartsPlan e u tmp p parts 0 (t4 ++ [cr tmp, wr tmp])
+        withPath (getObjectPath e b k) t1 fun p =>
+        match completeCheck e u parts 0 t1 [] with
+        | .error pl => pl
+        | .ok (t2, pps) =>
+          -- the content is assembled in the temporary file from the part files and renamed into place (an error drops the
+          -- writer: temporary file removed) …
+          withPath (tmpPath e counter) t2 fun tmp =>
+          let t3 := t2 ++ [cr tmp, wr tmp] ++ pps.map rd ++ [rm tmp, ⟨.create, .dirChain (parentPath p)⟩, cr p, wr p]
+          -- … then the upload's metadata becomes the object's, the part files and the upload record are removed, and the
+          -- object is read back for the ETag
+          withPath (metadataPath e enc b k (some u)) t3 fun um =>
+          let t4 := t3 ++ [rd um]
+          withPath (metadataPath e enc b k none) t4 fun m =>
+          let t5 := t4 ++ [cr m, wr m, rm um] ++ pps.map rm
+          withPath (uploadInfoPath e u) t5 fun info => .ok (t5 ++ [rm info, rd p])
   | .abortMultipartUpload b k uploadId =>
     match parseUuid uploadId with
     | none => .fail [] .invalidRequest
